@@ -7,7 +7,10 @@
 (* concatenated, separated by `reset` events.                              *)
 (*                                                                         *)
 (* Every event carries the complete observation after the step:            *)
-(*   obs = [tags : name -> [c, k, id, sane], head, dirty, other]           *)
+(*   obs = [tags : name -> [c, k, id, sane], head, dirty, gitclean, other] *)
+(* dirty = the work-tree class whose status (computed in TaggerWorktree)   *)
+(* equals what `git status` printed, gitclean = git printed nothing but    *)
+(* ignored paths;                                                          *)
 (* c = index of the peeled commit, k = "light"/"annotated", id = token of  *)
 (* the object the ref points at (0 for a lightweight tag, a per-replay     *)
 (* serial number per distinct tag object otherwise), sane = git's own view *)
@@ -26,7 +29,10 @@ VARIABLES st,   \* tracked repository state: [tags, head, dirty, version, other,
 
 tvars == <<st, l>>
 Ev == Trace[l]
-IsEvent(e) == l <= Len(Trace) /\ Trace[l].op = e /\ l' = l + 1
+\* git's own verdict (`gitclean`: the status lists nothing but ignored paths) is recorded with every observation,
+\* independently of the class the status was matched to; the two must agree with TaggerWorktree.tla
+ObsOK(o) == o.gitclean = Clean(o.dirty)
+IsEvent(e) == l <= Len(Trace) /\ Trace[l].op = e /\ ObsOK(Trace[l].obs) /\ l' = l + 1
 
 Obs(version, n) == [tags |-> Ev.obs.tags, head |-> Ev.obs.head, dirty |-> Ev.obs.dirty,
                     version |-> version, other |-> Ev.obs.other, n |-> n]
@@ -43,6 +49,7 @@ Reset == /\ IsEvent("reset")
 Commit == /\ IsEvent("commit")
           /\ Ev.obs.head = st.n + 1
           /\ SameTags(Ev.obs.tags, st.tags)
+          /\ st.dirty \in WtNames /\ Ev.obs.dirty = WtClass(WtAfterCommit(st.dirty))
           /\ st' = Obs(st.version, st.n + 1)
 
 Checkout == /\ IsEvent("checkout")
@@ -78,7 +85,8 @@ Branch == /\ IsEvent("branch")
           /\ st' = Obs(st.version, st.n)
 
 Touch == /\ IsEvent("touch")
-         /\ st.dirty = "clean" /\ Ev.obs.dirty = Ev.kind
+         /\ st.dirty = "clean" /\ Ev.kind \in WtNames
+         /\ Ev.obs.dirty = WtClass(Ev.kind) /\ Ev.obs.gitclean = Clean(Ev.kind)
          /\ SameTags(Ev.obs.tags, st.tags) /\ Ev.obs.head = st.head
          /\ st' = Obs(st.version, st.n)
 
